@@ -242,6 +242,9 @@ def rustc(src, out, deps, crate_type="bin", opt="0", debug_assert=True, extra=()
                            timeout=timeout)
     except subprocess.TimeoutExpired:
         raise Inconclusive("rustc timed out on " + src)
+    if p.returncode != 0 and ("extern location for" in p.stderr and "does not exist" in p.stderr):
+        # the dependency artifacts were replaced under us (another check rebuilt them after /repo changed): infrastructure, not a verdict
+        raise Inconclusive("dependency artifact vanished while compiling (concurrent rebuild of strum?)")
     diags = parse_diags(p.stderr)
     return Compiled(p.returncode == 0, diags, out, time.time() - t0, p.stderr)
 
